@@ -146,6 +146,8 @@ int yywrap(SC_DECL_)
 	sim_xop x;
 	int ret = 1;
 	SIM_DECL_YYG
+	/* a buffer created implicitly by yylex() may not be known yet */
+	sim_sync_current(SIM_CURBUF(), SIM_GETIN());
 	switch (sim_wrap_next(&x)) {
 	case SOP_STOP:
 		ret = 1;
